@@ -166,6 +166,9 @@ impl Freelist {
             page_ids.append(&mut pages);
         }
         page_ids.sort_unstable();
+        // A page can be freed twice in one transaction: deleting a nested bucket and then one of
+        // its ancestors walks the nested bucket's committed pages both times.
+        page_ids.dedup();
         page_ids
     }
 
